@@ -25,6 +25,7 @@ open F32 AdsrL
 
 structure AOk (a : Adsr) : Prop where
   tb : a.pa.totalBits = 24
+  ib : a.pa.indexBits = 10
   rate : RateOk a.pa.sr
   acc : a.pa.acc < 2 ^ 24
   rolled : a.pa.rolled = false
@@ -41,7 +42,7 @@ theorem minTime_ok : TimeOk minTime := by
 theorem timePeriod_minTime : timePeriod minTime = minTime := by decide +kernel
 
 theorem new_ok (sr : F32) (h : RateOk sr) : AOk (Adsr.new sr) := by
-  refine ⟨adsr_bits.1, h, by simp [Adsr.new, PhaseAcc.new], rfl, ?_, ?_, ?_⟩ <;>
+  refine ⟨adsr_bits.1, adsr_bits.2.1, h, by simp [Adsr.new, PhaseAcc.new], rfl, ?_, ?_, ?_⟩ <;>
     (show TimeOk (timePeriod minTime); rw [timePeriod_minTime]; exact minTime_ok)
 
 theorem period_ok (a : Adsr) (h : AOk a) : TimeOk a.period := by
@@ -59,16 +60,16 @@ theorem tick_ok (a : Adsr) (h : AOk a) : ∃ a', a.tick = some a' ∧ AOk a' := 
     obtain ⟨a', e, r', _, tb', hcase⟩ := C02.tick_timed a ht h.rolled (by omega)
     refine ⟨a', e, ?_⟩
     have hfields : a'.pa.sr = a.pa.sr ∧ a'.attackTime = a.attackTime ∧ a'.decayTime = a.decayTime ∧
-        a'.releaseTime = a.releaseTime := by
+        a'.releaseTime = a.releaseTime ∧ a'.pa.indexBits = a.pa.indexBits := by
       have ht' := C02.pa_tick (a.pa.setPeriod a.period) (by show a.pa.acc + C02.incOf a < 2 ^ 32; omega)
       unfold Adsr.tick at e
       rw [if_pos ht, ht'] at e
       simp only [Option.some.injEq] at e
       subst e
       dsimp only
-      split <;> exact ⟨rfl, rfl, rfl, rfl⟩
-    obtain ⟨f1, f2, f3, f4⟩ := hfields
-    refine ⟨by rw [tb']; exact h.tb, by rw [f1]; exact h.rate, ?_, r', by rw [f2]; exact h.att,
+      split <;> exact ⟨rfl, rfl, rfl, rfl, rfl⟩
+    obtain ⟨f1, f2, f3, f4, f5⟩ := hfields
+    refine ⟨by rw [tb']; exact h.tb, by rw [f5]; exact h.ib, by rw [f1]; exact h.rate, ?_, r', by rw [f2]; exact h.att,
       by rw [f3]; exact h.dec, by rw [f4]; exact h.rel⟩
     rw [h.tb] at hcase
     split at hcase
@@ -76,20 +77,20 @@ theorem tick_ok (a : Adsr) (h : AOk a) : ∃ a', a.tick = some a' ∧ AOk a' := 
     · rw [hcase.2]; omega
   · have ht' : a.state.timed = false := by simpa using ht
     refine ⟨{ a with value := a.calcValue }, by simp [Adsr.tick, ht'], ?_⟩
-    exact ⟨h.tb, h.rate, h.acc, h.rolled, h.att, h.dec, h.rel⟩
+    exact ⟨h.tb, h.ib, h.rate, h.acc, h.rolled, h.att, h.dec, h.rel⟩
 
 theorem gateOn_ok (a : Adsr) (h : AOk a) : AOk a.gateOn := by
   unfold Adsr.gateOn
   split
   · exact h
-  · exact ⟨h.tb, h.rate, by simp [PhaseAcc.reset], by simp [PhaseAcc.reset], h.att, h.dec, h.rel⟩
+  · exact ⟨h.tb, h.ib, h.rate, by simp [PhaseAcc.reset], by simp [PhaseAcc.reset], h.att, h.dec, h.rel⟩
 
 theorem gateOff_ok (a : Adsr) (h : AOk a) : AOk a.gateOff := by
   unfold Adsr.gateOff
   split
   · exact h
   · exact h
-  · exact ⟨h.tb, h.rate, by simp [PhaseAcc.reset], by simp [PhaseAcc.reset], h.att, h.dec, h.rel⟩
+  · exact ⟨h.tb, h.ib, h.rate, by simp [PhaseAcc.reset], by simp [PhaseAcc.reset], h.att, h.dec, h.rel⟩
 
 /-- parameter changes as the public API allows them: the value goes through `TimePeriod::from` / `SustainLevel::from` -/
 inductive Op
@@ -120,10 +121,10 @@ theorem step_ok (a : Adsr) (h : AOk a) (o : Op) (hw : opWf o) : ∃ a', step a o
   | gateOn => exact ⟨_, rfl, gateOn_ok a h⟩
   | gateOff => exact ⟨_, rfl, gateOff_ok a h⟩
   | tick => exact tick_ok a h
-  | setAttack x => exact ⟨_, rfl, ⟨h.tb, h.rate, h.acc, h.rolled, timePeriod_ok x hw, h.dec, h.rel⟩⟩
-  | setDecay x => exact ⟨_, rfl, ⟨h.tb, h.rate, h.acc, h.rolled, h.att, timePeriod_ok x hw, h.rel⟩⟩
-  | setRelease x => exact ⟨_, rfl, ⟨h.tb, h.rate, h.acc, h.rolled, h.att, h.dec, timePeriod_ok x hw⟩⟩
-  | setSustain x => exact ⟨_, rfl, ⟨h.tb, h.rate, h.acc, h.rolled, h.att, h.dec, h.rel⟩⟩
+  | setAttack x => exact ⟨_, rfl, ⟨h.tb, h.ib, h.rate, h.acc, h.rolled, timePeriod_ok x hw, h.dec, h.rel⟩⟩
+  | setDecay x => exact ⟨_, rfl, ⟨h.tb, h.ib, h.rate, h.acc, h.rolled, h.att, timePeriod_ok x hw, h.rel⟩⟩
+  | setRelease x => exact ⟨_, rfl, ⟨h.tb, h.ib, h.rate, h.acc, h.rolled, h.att, h.dec, timePeriod_ok x hw⟩⟩
+  | setSustain x => exact ⟨_, rfl, ⟨h.tb, h.ib, h.rate, h.acc, h.rolled, h.att, h.dec, h.rel⟩⟩
 
 /-- **ADSR, all histories**: for a sample rate in [100 Hz, 192 kHz] and *any* binary32 parameter values, no
 sequence of gate-on / gate-off / tick / set_input calls panics or overflows -/
